@@ -10,12 +10,15 @@
    (a); the theorems below are its structural invariants for every program, environment and run
    length; the "evmcore" engine compares the in-tree interpreter with it on generated programs
    (outcome class, return data, storage, logs) and runs the reference interpreter on the same
-   requests.  (c) What (b) does not model - SHA3, account queries, BLOCKHASH, nested calls, creates,
-   self-destructs, precompiles, gas - is compared with the reference only: the "evmdiff" engine runs
+   requests; Model/EvmWorld.v puts that machine into a world of accounts with message-call frames
+   (CALL, CALLCODE, DELEGATECALL, STATICCALL with value transfer, revert of failed callees, static
+   mode, return data; BALANCE, EXTCODESIZE, EXTCODECOPY), compared by the "evmworld" engine.
+   (c) What (b) does not model - SHA3, EXTCODEHASH, BLOCKHASH, creates, self-destructs, precompiles,
+   gas - is compared with the reference only: the "evmdiff" engine runs
    generated programs on the in-tree and the reference go-ethereum v1.8.27 interpreters and compares
    outcome class, return data, post-state root and logs (partial, DESIGN.md C10). *)
 From Coq Require Import ZArith Bool Lia List.
-From AnnVerif Require Import Model.EvmArith Proofs.EvmProofs Model.EvmCore Proofs.EvmCoreProofs.
+From AnnVerif Require Import Model.EvmArith Proofs.EvmProofs Model.EvmCore Proofs.EvmCoreProofs Model.EvmWorld Proofs.EvmWorldProofs.
 Import ListNotations.
 Open Scope Z_scope.
 
@@ -112,3 +115,30 @@ Example c10_core_nonvacuous :
   call 1000 cx_env cx_badjump [] = OFail /\
   call 4500 cx_env cx_overflow [] = OFail.
 Proof. vm_compute. repeat split; reflexivity. Qed.
+
+(* ---- the machine across contracts (Model/EvmWorld.v) ---- *)
+
+(* a frame in static mode - the callee of a STATICCALL and everything it calls in turn - leaves
+   every account and the logs as they were, whatever its code does *)
+Theorem c10_static_frames_change_nothing :
+  forall b fuel ws fr l ws' o, f_static fr = true -> run_frame b fuel ws fr l = (ws', o) -> wsame ws' ws.
+Proof. exact static_frame_changes_nothing. Qed.
+Print Assumptions c10_static_frames_change_nothing.
+
+(* non-vacuity: contract c1 calls contract c2 with value 5 and stores the flag; contract 2 stores its
+   call value; then contract 1 STATICCALLs contract 2, whose SSTORE now fails (flag 0)
+   c1: PUSH1 0 x4; PUSH1 5; PUSH1 2; PUSH1 0; CALL; PUSH1 1; SSTORE;  PUSH1 0 x4; PUSH1 2; PUSH1 0; STATICCALL; PUSH1 2; SSTORE; STOP
+   c2: CALLVALUE; PUSH1 7; SSTORE; STOP *)
+Definition wx_c1 : list Z := [96;0;96;0;96;0;96;0;96;5;96;194;96;0;241;96;1;85; 96;0;96;0;96;0;96;0;96;194;96;0;250;96;2;85;0].
+Definition wx_c2 : list Z := [52;96;7;85;0].
+Definition wx_world : world := [(193, mkAcc 1 100 wx_c1 []); (194, mkAcc 1 0 wx_c2 []); (170, mkAcc 5 1000 [] [])].
+Definition wx_benv : benv := mkBenv 170 0 12648430 1000 300 7 10000000.
+Example c10_world_nonvacuous :
+  match call_world 1000 wx_benv wx_world 193 0 [] with
+  | (ws, FStop []) =>
+    (a_balance (get_acc (ws_world ws) 193), a_balance (get_acc (ws_world ws) 194),
+     sload (a_store (get_acc (ws_world ws) 193)) 1, sload (a_store (get_acc (ws_world ws) 193)) 2,
+     sload (a_store (get_acc (ws_world ws) 194)) 7) = (95, 5, 1, 0, 5)
+  | _ => False
+  end.
+Proof. vm_compute. reflexivity. Qed.
